@@ -96,3 +96,5 @@ func verifLastRandN() int           { return 0 }
 func verifLastRand() int            { return 0 }
 func verifBoundSelectDefaults(n int) {}
 func verifBoundTryFailures(n int)     {}
+func verifPendingAfterFuncs() int        { return 0 }
+func verifCondWaiters(c *sync.Cond) int   { return 1 }
